@@ -405,6 +405,8 @@ def _check_root(
         tol: Expected tolerance for solution precision.
     """
     err = snp.abs(x**3 + p * x + q)
+    if isinstance(err, jax.core.Tracer):  # diagnostic only: not available while tracing
+        return
     if not snp.allclose(err, 0, atol=tol):
         idx = snp.argmax(err)
         msg = (
